@@ -9,10 +9,13 @@ TwoEnum == { << Item(TRUE, s), Item(FALSE, "0") >> : s \in Strs }
            \cup { << Item(TRUE, s), Item(FALSE, "0"), Item(FALSE, "0") >> : s \in {"2147483646", "2147483647", "-2147483648", "-2"} }
 TwoField == { << Item(TRUE, s), Item(FALSE, "0") >> : s \in Strs }
             \cup { << Item(FALSE, "0"), Item(TRUE, s), Item(FALSE, "0") >> : s \in Strs }
+\* auto-assigned ids against explicit negative ones, in every order: ids must stay unique or the struct is rejected
+Small == { Item(TRUE, "-1"), Item(TRUE, "-2"), Item(TRUE, "-3"), Item(TRUE, "1"), Item(FALSE, "0") }
+ThreeField == { << a, b, c >> : a \in Small, b \in Small, c \in Small } \cup { << a, b, c, Item(FALSE, "0") >> : a \in Small, b \in Small, c \in Small }
 Cases ==
   { [ctx |-> "enum", ty |-> "i32", items |-> q] : q \in One \cup TwoEnum }
   \cup { [ctx |-> "fields-strict", ty |-> "i16", items |-> q] : q \in One }
-  \cup { [ctx |-> "fields-nonstrict", ty |-> "i16", items |-> q] : q \in One \cup TwoField }
+  \cup { [ctx |-> "fields-nonstrict", ty |-> "i16", items |-> q] : q \in One \cup TwoField \cup ThreeField }
   \cup { [ctx |-> c, ty |-> t, items |-> q] : c \in {"const", "default", "list", "mapkey", "typedef-const"},
                                                t \in {"i8", "byte", "i16", "i32", "i64"}, q \in One }
   \cup { [ctx |-> c, ty |-> "i32", items |-> << Item(TRUE, "1") >>] :
